@@ -36,6 +36,7 @@ import re
 import struct
 import types
 
+import gen_c05
 from vlib import Ctx, InfraError
 
 PROPERTY = "C05"
@@ -50,6 +51,9 @@ RULE = ("history = 4..6 real TunnelCommunity nodes + 1 outsider, 1..6 circuits o
         "at the target, outcome); non-trivial = the action addressed an id that is in use at the target or moved a "
         "cell of a live circuit")
 TRUSTED_BASE = [
+    "tools/gen_c05.py: AST translation of the handlers' guards (boolean expressions over a per-function vocabulary of atoms; "
+    "what an atom MEANS - e.g. `peer == prev_relay.hop.peer` is 'the signer is the previous hop' - is fixed in the translator and "
+    "in the model's call site, and tied to the code by the correspondence run)",
     "harness/c05.py: recorder endpoints; exit sockets are real except TunnelProtocol.open, which returns a recording "
     "transport once the harness completes it (enable, create_transports, queue, sendto, datagram_received, "
     "tunnel_data, is_allowed are the real code); on_raw_data subclass hook; virtual clock",
@@ -70,6 +74,14 @@ ASSUMPTIONS = [
 ]
 
 ZERO = ("0.0.0.0", 0)
+
+
+def generate(ctx: Ctx):
+    """Translator: the guards of on_create / on_created / on_destroy / on_data / exit_data / process_cell / relay_cell /
+    incoming_crypto / outgoing_crypto, message ids and constants are re-read from the working tree on every run."""
+    src, _ = gen_c05.translate()
+    return [("Ipv8/C05/GenGuards.lean", src)]
+
 MAX_RE = 8
 
 
@@ -1293,12 +1305,13 @@ class History:
                 # heartbeat of a circuit / exit socket (they decide about inactivity and traffic-limit removal)
                 after_acct = w.accounting(node)
                 moved = sorted(k for k in acct if k in after_acct and after_acct[k] != acct[k])
-                if moved and (w.step_exit or w.step_orig):
+                if moved and (w.step_exit or w.step_orig or (w.step_sends and "R" not in role)):
                     self.fail("PythonCryptoEndpoint.process_cell:forged-cell-accepted",
                               f"forged {kind} cell for id {cid} (role {role}) from {src} at node {node}"
                               f"{' on interface ' + self.force['iface'] if self.force.get('iface') else ''} was handled as if it "
                               f"carried the circuit's keys: {len(w.step_exit)} datagram(s) left an exit socket, "
-                              f"{len(w.step_orig)} delivered to the application", {"node": node})
+                              f"{len(w.step_orig)} delivered to the application, answered with "
+                              f"{[w.header(q)[:3] for q in w.step_sends]}", {"node": node})
                 elif moved:
                     self.fail("PythonCryptoEndpoint.process_cell:accounting-moved-by-dropped-cell",
                               f"forged {kind} cell for id {cid} (role {role}) from {src} at node {node} was dropped but moved "
